@@ -235,6 +235,10 @@ def handleHuff (cmd : String) (args : List String) : Option String :=
   | "huff.gen", [T, kind, len, seed, every] => do
       let T ← nat? T; let len ← nat? len; let seed ← nat? seed; let every ← nat? every
       if T < 2 || T > 20000 || every == 0 then none else HuffDrv.gen T kind len seed every
+  | "huff.gen", [T, kind, len, seed, every, k] => do
+      -- k refused out-of-range updates first: no-ops in the model (C15_node_refused)
+      let T ← nat? T; let len ← nat? len; let seed ← nat? seed; let every ← nat? every; let _ ← nat? k
+      if T < 2 || T > 20000 || every == 0 then none else HuffDrv.gen T kind len seed every
   | "huff.enum", [T, depth] => do
       let T ← nat? T; let depth ← nat? depth
       if T < 2 || T > 64 || depth > 12 then none else pure (HuffDrv.enumAll T depth [])
